@@ -341,6 +341,11 @@ def z_new(name, path, args=(), kw=None):
 
 def z_run(prog):
     """interpret one program; -> list of observations"""
+    # start from an empty destructor log: objects of EARLIER programs that are only collected now must not show
+    # up in this program's 'dlog' observation (their __del__ / __dealloc__ events belong to those programs)
+    import gc as _gc
+    _gc.collect()
+    del DLOG[:]
     v = {}
     out = []
     wr = {}
